@@ -7,14 +7,15 @@ import json
 from vf import gen, oracle, reqgen
 from vf import dispatchmon as dm
 from vf.peers import LoopbackTransport
-from vf.probes import Spec, EXC_CLASSES
+from vf.probes import Spec, EXC_CLASSES, KINDS
 
 LEVEL = "exploration"
 SHARDS = {"quick": 8, "thorough": 16}
 TIMEOUT = {"quick": 180, "thorough": 1500}
 RULE = ("requests = method names (49 directed names incl. private / nested / dunder segments, plus random) against a "
         "registry of probe functions and a registered instance with public, private and nested attributes; generated "
-        "registries of probes with 14 signature shapes x argument lists/maps of every arity; 26 ordinary exception "
+        "registries of probes with 14 signature shapes (registered as plain functions, functools.wraps-decorated, bare "
+        "pass-through wrappers, partials, callable instances, bound methods) x argument lists/maps of every arity; 26 ordinary exception "
         "classes x single-line messages; malformed bodies from the damage operators; structurally invalid objects from "
         "the member matrix; translator-rejected payloads; x server version {1.0,2.0}; client side through ServerProxy "
         "over a loopback transport. distinct = distinct (configuration, body); non-trivial = the reference "
@@ -43,19 +44,19 @@ ARG_KEYS = ["a", "b", "k", "x", "kw", "args", "rest"]
 def gen_registry(rng, mode="default"):
     funcs = {}
     for i, sig in enumerate(SIGS):
-        funcs["f%d" % i] = Spec("f%d" % i, sig)
+        funcs["f%d" % i] = Spec("f%d" % i, sig, kind=rng.choice(KINDS))
     for i, exc in enumerate(EXC_CLASSES):
         msg = rng.choice(MESSAGES)
         if exc in (KeyError,):
             msg = rng.choice(["k", "missing"])
-        funcs["r%d" % i] = Spec("r%d" % i, rng.choice(["*a, **k", "a=0", ""]), ("raise", exc, msg))
+        funcs["r%d" % i] = Spec("r%d" % i, rng.choice(["*a, **k", "a=0", ""]), ("raise", exc, msg), kind=rng.choice(KINDS))
     funcs["te"] = Spec("te", "*a, **k", ("typeerror-body", rng.choice(MESSAGES[:3])))
     tree = None
     if mode == "default":
         tree = {
-            "g": Spec("i.g", rng.choice(SIGS)),
+            "g": Spec("i.g", rng.choice(SIGS), kind=rng.choice(KINDS)),
             "_g": Spec("i._g"),
-            "n": {"h": Spec("i.n.h", rng.choice(SIGS)), "_h": Spec("i.n._h"),
+            "n": {"h": Spec("i.n.h", rng.choice(SIGS), kind=rng.choice(KINDS)), "_h": Spec("i.n._h"),
                   "m": {"leaf": Spec("i.n.m.leaf"), "__x": Spec("i.n.m.__x")},
                   "boom": Spec("i.n.boom", "*a, **k", ("raise", rng.choice(EXC_CLASSES), rng.choice(MESSAGES)))},
             "_n": {"h": Spec("i._n.h")},
